@@ -108,3 +108,7 @@ def wmw_force_stale(ctx, prog):
 wmw_force_stale.rule_id = "C17.WMW-force-stale"
 
 RULES = [guard_full, wmc_user, pair, unequal_row, wmw_force_stale]
+
+# control signature of the bookkeeping effects this property depends on (rules/ctrlsig.py)
+from .ctrlsig import make_rule as _ctrl_rule  # noqa: E402
+RULES.append(_ctrl_rule("C17"))
